@@ -227,9 +227,27 @@ def check(run):
             cnt = int(o.split(" ")[0])
             if cnt > int(f[2]) or any(x != 90 for x in got[cnt:]) or len(got) != int(f[2]):
                 oracle_fail.append((cfg, l, "count <= len and elements beyond the count untouched", o))
+    # the other direction (C arrays -> document): run on the library only, expected text computed here
+    cad_lines, cad_exp = [], []
+    for _ in range(400 if thorough else 80):
+        vals = [rnd.choice([0, 1, -1, 255, 2 ** 31, -2 ** 31 - 1, 2 ** 63 - 1, -2 ** 63, rnd.randrange(-10 ** 6, 10 ** 6)]) for _ in range(rnd.choice([0, 1, 2, 3, 4, 9, 40]))]
+        cad_lines.append("CAD " + dump([("i", v) for v in vals]))
+        di = lambda v: "i%d" % v
+        f3 = (vals + [0, 0, 0])[:3]
+        one = "[" + ",".join(di(v) for v in vals) + "]"
+        fx = "[" + ",".join(di(v) for v in f3) + "]"
+        fr = "[" + ",".join(di(v) for v in f3[::-1]) + "]"
+        cad_exp.append(f"true {one} true {{6d:[{','.join(['i0'] + [di(v) for v in vals])}]}} true {fx} true {{6b:{fx}}} true [{fx},{fr}] true [s616263]")
+    cad_out, cad_crash = vlib.run_sharded(impl, cad_lines, None, 600, ["CFG " + cfg])
+    if cad_crash:
+        run.violation("C13: library crashed in copyArray(C array -> document): " + cad_crash[:200], dict(kind="input", cfg=cfg, harness_src="num_h", lines=[cad_lines[0]], observed=cad_crash[-2000:]))
+    for l, e, o in zip(cad_lines, cad_exp, cad_out):
+        run.count(l)
+        if o != "<crash>" and o != e:
+            oracle_fail.append((cfg, l, "copyArray(C array -> document) stores exactly the given numbers: " + e[:200], o[:300]))
     run.cov["rule"] = ("copyArray(document -> T* with length / T[N1][N2] / char[N]) on arrays shorter, equal and longer than the destination, rows of uneven length, non-array "
                        "sources and elements, strings around N with embedded NUL: destination placed between guard elements (none may change), result and count equal the "
-                       "model's (Convert.copy_array_1d / copy_array_2d / copy_string, proved never to write beyond the destination); "
+                       "model's (Convert.copy_array_1d / copy_array_2d / copy_string, proved never to write beyond the destination); copyArray(C array -> document, JsonArray, member; 1-D, pointer+length, 2-D, char[]) against the numbers given; enumerations and bool as conversion targets; "
                        "stored numbers: integer/float/double within 2 of every power of two and type limit (values, halves, neighbours), special floats, random; "
                        "8 integral targets + float + double + is<T>; oracle: C13's rule on the exact rational value (Python Fraction), nearest representable for "
                        "floating targets, is<T> => as<U> agrees for wider U; numeric strings of up to 40000 digits as copied and as linked strings; "
